@@ -213,7 +213,9 @@ static Plan gen_gates(uint64_t seed, const Op &opts) {
         int nin = (int) r.range(2, 8);
         int maxg = (int) opts.geti("gates", 24);
         int ng = (int) r.range(3, std::max(3, maxg));
-        int shape = (int) r.below(5);   // 0 random dag, 1 chain, 2 tree, 3 fan-out, 4 in-place accumulate
+        int shape = opts.has("shape") ? (int) opts.geti("shape") : (int) r.below(5);   // 0 random dag, 1 chain, 2 tree, 3 fan-out, 4 in-place accumulate
+        if (opts.has("mingates")) ng = std::max(ng, (int) opts.geti("mingates"));
+        double muxbias = opts.getd("muxbias", 0.0);
         std::vector<int> vals;
         for (int i = 0; i < nin; i++) { int b = (int) r.below(2); input(b, (int) r.below(2)); vals.push_back(b); }
         int hub = 0;
@@ -221,6 +223,7 @@ static Plan gen_gates(uint64_t seed, const Op &opts) {
             int g;
             do g = (int) r.below(G_COUNT); while (g == G_CONSTANT && gi < 2);
             if (shape == 1 && r.bern(0.8)) { static const int bg[] = {G_NAND, G_XOR, G_AND, G_OR, G_XNOR, G_MUX}; g = bg[r.below(6)]; }
+            if (r.bern(muxbias)) g = G_MUX;
             int ar = gate_arity(g);
             int nw = (int) vals.size();
             int in[3];
@@ -490,7 +493,10 @@ static void exec_gates(const Plan &p, RunResult &r) {
                             r.stats[key + ".n"] += 1; r.stats[key + ".s1"] += e; r.stats[key + ".s2"] += e * e; r.stats[key + ".s4"] += e * e * e * e;
                             double &mx = r.stats[key + ".max"]; mx = std::max(mx, std::fabs(e));
                         }
-                        if (depth > 0) { r.stats["chain.n"] += 1; r.stats["chain.sd"] += depth; r.stats["chain.sdd"] += (double) depth * depth; r.stats["chain.se"] += e * e; r.stats["chain.sde"] += depth * e * e; }
+                        if (depth > 0 && gt != G_MUX) {   // regression of e^2 against depth, binary gates only (MUX has its own variance)
+                            r.stats["chain.n"] += 1; r.stats["chain.sd"] += depth; r.stats["chain.sdd"] += (double) depth * depth; r.stats["chain.se"] += e * e;
+                            r.stats["chain.sde"] += depth * e * e; r.stats["chain.s4"] += e * e * e * e;
+                        }
                     }
                 }
                 r.probes.add("gate_checked");
